@@ -14,6 +14,9 @@ import (
 //	createSingleFlight          CreateTreasure runs under createMu and consults/fills creatingTreasures
 //	rechecksObjectUnderGuard    the Increment bodies compare beaconKey.Get(key) with their object after
 //	                            taking the guard
+//	setTestsExistenceUnderGuard gateway Set: for both conditional forms (Overwrite=false, CreateIfNotExist=false) a
+//	                            TreasureExists test guards a return/continue AFTER StartTreasureGuard in the same
+//	                            function literal (tests before the guard may remain as a fast path)
 func init() {
 	Register("C09", Extractor{Import: "Hv.Props.C09", Type: "Hv.C09.Facts", Run: c09Run})
 }
@@ -40,6 +43,7 @@ func c09Run(fs *Facts) {
 		fs.Tri("resetsIdOnEmpty", Unknown, tmp.Where["resetsIdOnEmpty"])
 	}
 
+	c09SetTests(fs)
 	sw, err := Load(c09Swamp)
 	if err != nil {
 		fs.Err("%v", err)
@@ -376,4 +380,86 @@ func c09Shape(fs *Facts, sw *File) {
 		}
 	}
 	fs.Enum("bodyShape", result, where)
+}
+
+// c09SetTests decides setTestsExistenceUnderGuard.
+func c09SetTests(fs *Facts) {
+	const name = "setTestsExistenceUnderGuard"
+	gw, err := Load(c09Gateway)
+	if err != nil {
+		fs.Err("%v", err)
+		fs.Tri(name, Unknown, c09Gateway)
+		return
+	}
+	set := gw.Func("Gateway", "Set")
+	if set == nil {
+		fs.Tri(name, Unknown, c09Gateway)
+		return
+	}
+	// which request flags make the outcome depend on existence at all
+	usesOverwrite, usesCreate := gw.Contains(set, "Overwrite"), gw.Contains(set, "GetCreateIfNotExist")
+	if !usesOverwrite && !usesCreate {
+		fs.Tri(name, Yes, c09Gateway+":"+itoa(gw.Line(set)))
+		return
+	}
+	guards := gw.CallsSuffix(set, ".StartTreasureGuard")
+	if len(guards) != 1 {
+		fs.Tri(name, Unknown, c09Gateway+":"+itoa(gw.Line(set)))
+		return
+	}
+	// the function literal that holds the guard
+	var lit *ast.FuncLit
+	ast.Inspect(set, func(x ast.Node) bool {
+		if fl, ok := x.(*ast.FuncLit); ok && fl.Pos() < guards[0].Pos() && guards[0].End() < fl.End() {
+			lit = fl // innermost wins (Inspect goes outside-in)
+		}
+		return true
+	})
+	if lit == nil {
+		fs.Tri(name, Unknown, c09Gateway+":"+itoa(gw.Line(guards[0])))
+		return
+	}
+	// variables assigned from TreasureExists after the guard
+	existVars := map[string]bool{}
+	ast.Inspect(lit, func(x ast.Node) bool {
+		if as, ok := x.(*ast.AssignStmt); ok && as.Pos() > guards[0].End() && len(as.Lhs) == 1 && len(as.Rhs) == 1 &&
+			strings.Contains(gw.Str(as.Rhs[0]), ".TreasureExists(") {
+			existVars[gw.Str(as.Lhs[0])] = true
+		}
+		return true
+	})
+	okOverwrite, okCreate := !usesOverwrite, !usesCreate
+	ast.Inspect(lit, func(x ast.Node) bool {
+		ifs, ok := x.(*ast.IfStmt)
+		if !ok || ifs.Pos() < guards[0].End() {
+			return true
+		}
+		cond := gw.Str(ifs.Cond)
+		tests := strings.Contains(cond, ".TreasureExists(")
+		for v := range existVars {
+			if strings.Contains(cond, v) {
+				tests = true
+			}
+		}
+		leaves := false
+		if n := len(ifs.Body.List); n > 0 {
+			switch ifs.Body.List[n-1].(type) {
+			case *ast.ReturnStmt:
+				leaves = true
+			case *ast.BranchStmt:
+				leaves = true
+			}
+		}
+		if tests && leaves {
+			if strings.Contains(cond, "Overwrite") {
+				okOverwrite = true
+			}
+			if strings.Contains(cond, "CreateIfNotExist") {
+				okCreate = true
+			}
+		}
+		return true
+	})
+	where := c09Gateway + ":" + itoa(gw.Line(guards[0]))
+	fs.Tri(name, TriOf(okOverwrite && okCreate), where)
 }
